@@ -1911,6 +1911,19 @@ class Sim:
         if final is None:
             if complete:
                 self.viol("C03", "no-results-file", "submission complete but results.json is missing")
+            elif not (self.resub and self.epoch > 0) and not self.rows_unknown:
+                # the fault-free run has stopped for good (no process left, documented recovery exhausted) without completing.
+                # C04 speaks about every job whose blockers have outcomes, whether or not the submission got to its summary.
+                rows = self._rows_on_disk()
+                for name, (cls, rc) in mdl.items():
+                    bl = self.jobs[name]["blocked_by"]
+                    if name in rows or not all(b in rows for b in bl):
+                        continue
+                    nl = len(self.launches.get(name, []))
+                    if cls == "canceled":
+                        self.viol("C04", "canceled-result-missing", f"{name} is flagged and a blocker failed or was canceled, all its blockers have outcomes, but the run ended without a 'canceled' result for it (started {nl} times)")
+                    elif nl == 0:
+                        self.viol("C04", "job-not-started-once", f"{name} should run (all its blockers {sorted(bl)} have outcomes on disk) but the fault-free run ended, incomplete, without ever starting it")
             return
         if missing:
             self.viol("C03", "missing-jobs", f"fault-free completed submission reports missing jobs {missing}")
